@@ -99,7 +99,13 @@ def check(ctx):
                                 special[o["bb"]] = "err:repeated-key-op"
                             if is_call(t) and t[1].endswith("::is_empty") and val is True:
                                 lv = pv._borrowed_lvalue(fn.blocks[t[3][1]]["term"]["args"][0], t[3][1])
-                                if lv == ("field", res, "key_ops") and not fn.cfg.in_loop(t[3][1])[1:]:
+                                recv = t[2][0]
+                                while recv[0] in ("ref", "deref"):
+                                    recv = recv[1]
+                                # the set after the element loop, or the entry's array before it (same thing: every element
+                                # is inserted or the decoder has failed)
+                                on_input = md.sym(recv) == src
+                                if (lv == ("field", res, "key_ops") or on_input) and not fn.cfg.in_loop(t[3][1])[1:]:
                                     special[o["bb"]] = "err:empty-key-ops"
                     ok = ok and sorted(special.values()) == ["err:empty-key-ops", "err:repeated-key-op"]
                     det["set_rules"] = sorted(special.values())
